@@ -17,7 +17,7 @@ package main
 //   cseq <lifetime ms> <ev>,<ev>,…                    a<ms> | c<hex user>:<T|G|F|E> | g<hex user> | p<hex user>:<0|1>
 // Output
 //   cfg/grp/usr/endcfg: ok
-//   req:  st=<code|PANIC> chg=<h+hex,…|-> read=<h+hex|none> list=<0|1> cert=<h+hex|none>
+//   req:  st=<code|PANIC> chg=<h+hex,…|-> read=<h+hex,…|none> list=<0|1> cert=<h+hex|none> copy=<h+hex(owner)>h+hex(row),…|->
 //   cseq: one token per c/g/p event: c<0|1>  g<isAdmin><valid>  p
 
 import (
@@ -30,6 +30,7 @@ import (
 	"crypto/x509/pkix"
 	"encoding/base64"
 	"encoding/binary"
+	"encoding/gob"
 	"encoding/hex"
 	"encoding/json"
 	"encoding/pem"
@@ -270,12 +271,12 @@ func (e *c08Env) mkProfile(name string, withTokens bool) *userProfile {
 		if err != nil {
 			e.t.Fatalf("soft token registration rejected: %v", err)
 		}
-		p.U2fAuthData[i] = &u2fAuthData{Enabled: en, Name: fmt.Sprintf("tok-%s-u%d", name, i), Registration: reg, CreatedAt: time.Unix(1700000000, 0)}
+		p.U2fAuthData[i] = &u2fAuthData{Enabled: en, Name: c08Marker(name) + fmt.Sprintf("u%d", i), Registration: reg, CreatedAt: time.Unix(1700000000, 0)}
 	}
 	for i, en := range map[int64]bool{11: true, 12: false} {
 		id := make([]byte, 16)
 		rand.Read(id)
-		p.WebauthnData[i] = &webauthAuthData{Enabled: en, Name: fmt.Sprintf("tok-%s-w%d", name, i), CreatedAt: time.Unix(1700000000, 0),
+		p.WebauthnData[i] = &webauthAuthData{Enabled: en, Name: c08Marker(name) + fmt.Sprintf("w%d", i), CreatedAt: time.Unix(1700000000, 0),
 			Credential: webauthn.Credential{ID: id, PublicKey: []byte{4, 1, 2, 3}, AttestationType: "none"}}
 	}
 	for i, en := range map[int64]bool{21: true, 22: false} {
@@ -283,10 +284,84 @@ func (e *c08Env) mkProfile(name string, withTokens bool) *userProfile {
 		if err != nil {
 			e.t.Fatal(err)
 		}
-		p.TOTPAuthData[i] = &totpAuthData{Enabled: en, Name: fmt.Sprintf("tok-%s-t%d", name, i), EncryptedSecret: enc, CreatedAt: time.Unix(1700000000, 0)}
+		p.TOTPAuthData[i] = &totpAuthData{Enabled: en, Name: c08Marker(name) + fmt.Sprintf("t%d", i), EncryptedSecret: enc, CreatedAt: time.Unix(1700000000, 0)}
 	}
 	p.UserHasRegistered2ndFactor = true
 	return p
+}
+
+// Every fixture token is named after its OWNER (hex, so that any login name can be read back):
+// whatever profile page or stored row such a name turns up in tells whose token data that is.
+func c08Marker(owner string) string { return "vftok." + hex.EncodeToString([]byte(owner)) + "." }
+
+var c08MarkerRE = regexp.MustCompile(`vftok\.([0-9a-f]*)\.`)
+
+func c08Owners(text string, into map[string]bool) {
+	for _, m := range c08MarkerRE.FindAllStringSubmatch(text, -1) {
+		if b, err := hex.DecodeString(m[1]); err == nil {
+			into[string(b)] = true
+		}
+	}
+}
+
+// table: every stored row, read with the harness's own exact SQL (never through LoadUserProfile).
+func (e *c08Env) table() map[string][]byte {
+	res := map[string][]byte{}
+	rows, err := e.state.db.Query("select username, profile_data from user_profile")
+	if err != nil {
+		e.t.Fatalf("table: %v", err)
+	}
+	defer rows.Close()
+	for rows.Next() {
+		var u string
+		var b []byte
+		if err := rows.Scan(&u, &b); err != nil {
+			e.t.Fatalf("table: %v", err)
+		}
+		if b == nil {
+			b = []byte{}
+		}
+		res[u] = b
+	}
+	return res
+}
+
+func c08Decode(b []byte) *userProfile {
+	p := &userProfile{U2fAuthData: map[int64]*u2fAuthData{}, TOTPAuthData: map[int64]*totpAuthData{}}
+	if b != nil {
+		if err := gob.NewDecoder(bytes.NewReader(b)).Decode(p); err != nil {
+			return nil
+		}
+	}
+	return p
+}
+
+// loadExact: the stored profile under exactly this key (an empty profile when there is no row).
+func (e *c08Env) loadExact(name string) *userProfile {
+	p := c08Decode(e.raw(name))
+	if p == nil {
+		e.t.Fatalf("cannot decode stored profile of %q", name)
+	}
+	return p
+}
+
+// c08StoredOwners: whose fixture tokens does a stored profile hold?
+func c08StoredOwners(b []byte) map[string]bool {
+	res := map[string]bool{}
+	p := c08Decode(b)
+	if p == nil {
+		return res
+	}
+	for _, t := range p.U2fAuthData {
+		c08Owners(t.Name, res)
+	}
+	for _, t := range p.WebauthnData {
+		c08Owners(t.Name, res)
+	}
+	for _, t := range p.TOTPAuthData {
+		c08Owners(t.Name, res)
+	}
+	return res
 }
 
 func (e *c08Env) raw(name string) []byte {
@@ -350,10 +425,7 @@ func (e *c08Env) doReq(f []string) string {
 		path, h = totpGeneratNewPath, state.GenerateNewTOTP
 	case "totpval":
 		path, h = totpValidateNewPath, state.validateNewTOTP
-		p, _, _, err := state.LoadUserProfile(actor)
-		if err != nil {
-			return "bad-op"
-		}
+		p := e.loadExact(actor)
 		secret := "JBSWY3DPEHPK3PXPJBSWY3DPEHPK3PXP"
 		if pending {
 			enc, err := state.encryptWithPublicKeys([]byte(secret))
@@ -377,10 +449,7 @@ func (e *c08Env) doReq(f []string) string {
 		path, h = u2fRegisterRequesponsePath+target, state.u2fRegisterResponse
 		c, _ := u2f.NewChallenge(u2fAppID, u2fTrustedFacets)
 		if pending {
-			p, _, _, err := state.LoadUserProfile(target)
-			if err != nil {
-				return "bad-op"
-			}
+			p := e.loadExact(target)
 			p.RegistrationChallenge = c
 			if err := state.SaveUserProfile(target, p); err != nil {
 				return "bad-op"
@@ -401,10 +470,7 @@ func (e *c08Env) doReq(f []string) string {
 		path, h = webAutnRegististerFinishPath+target, state.webauthnFinishRegistration
 		challenge := "AAAAAAAAAAAAAAAAAAAAAAAAAAAAAAAAAAAAAAAAAAA"
 		if pending {
-			p, _, _, err := state.LoadUserProfile(target)
-			if err != nil {
-				return "bad-op"
-			}
+			p := e.loadExact(target)
 			p.FixupCredential(target, target)
 			_, session, err := state.webAuthn.BeginRegistration(p)
 			if err != nil {
@@ -452,31 +518,35 @@ func (e *c08Env) doReq(f []string) string {
 		req.Header.Set("Content-Type", "application/x-www-form-urlencoded")
 	}
 	req.AddCookie(e.cookie(actor, level))
-	// before
-	watch := append([]string{}, e.order...)
-	seen := map[string]bool{}
-	for _, n := range watch {
-		seen[n] = true
-	}
-	for _, n := range []string{actor, target, ""} {
-		if !seen[n] {
-			seen[n] = true
-			watch = append(watch, n)
-		}
-	}
-	before := map[string][]byte{}
-	for _, n := range watch {
-		before[n] = e.raw(n)
-	}
+	// before: the whole table
+	before := e.table()
 	rr, panicked := vfServe(h, req)
 	// after
+	after := e.table()
 	var changed []string
-	for _, n := range watch {
-		after := e.raw(n)
-		if (after == nil) != (before[n] == nil) || !bytes.Equal(after, before[n]) {
+	names := map[string]bool{}
+	for n := range before {
+		names[n] = true
+	}
+	for n := range after {
+		names[n] = true
+	}
+	var copies []string
+	for n := range names {
+		b, okb := before[n]
+		a, oka := after[n]
+		if okb != oka || !bytes.Equal(a, b) {
 			changed = append(changed, c08H(n))
+			if oka { // provenance of what is now stored under n
+				for o := range c08StoredOwners(a) {
+					if o != n {
+						copies = append(copies, c08H(o)+">"+c08H(n))
+					}
+				}
+			}
 		}
 	}
+	sort.Strings(copies)
 	sort.Strings(changed)
 	st := strconv.Itoa(rr.Code)
 	if panicked != nil {
@@ -486,13 +556,25 @@ func (e *c08Env) doReq(f []string) string {
 	read, list, cert := "none", "0", "none"
 	if okStatus {
 		bodyS := rr.Body.String()
+		shown := map[string]bool{} // whose profile data the answer carries (any operation)
+		c08Owners(bodyS, shown)
 		switch op {
 		case "view":
 			if m := c08UsernameRE.FindStringSubmatch(bodyS); m != nil {
-				read = c08H(m[1])
+				shown[m[1]] = true
 			} else {
 				read = "unparsed"
 			}
+		}
+		if len(shown) > 0 && read != "unparsed" {
+			var l []string
+			for o := range shown {
+				l = append(l, c08H(o))
+			}
+			sort.Strings(l)
+			read = strings.Join(l, ",")
+		}
+		switch op {
 		case "list":
 			all := true
 			for _, n := range e.order {
@@ -515,18 +597,21 @@ func (e *c08Env) doReq(f []string) string {
 			}
 		}
 	}
-	// restore the fixture
-	for _, n := range watch {
+	// restore the fixture: every row that changed or was written during set-up; rows that do not
+	// belong to the fixture are deleted
+	for n := range names {
 		canon, isFix := e.fixture[n]
-		cur := e.raw(n)
+		_, exists := after[n]
 		dirty := false
 		for _, c := range changed {
 			if c == c08H(n) {
 				dirty = true
 			}
 		}
-		// set-up writes (pending data) happen before `before`: restore those users as well
 		if n == actor && op == "totpval" || n == target && (op == "u2ffin" || op == "wafin") {
+			dirty = true
+		}
+		if !isFix && exists {
 			dirty = true
 		}
 		if !dirty {
@@ -536,7 +621,7 @@ func (e *c08Env) doReq(f []string) string {
 			if err := state.SaveUserProfile(n, canon); err != nil {
 				e.t.Fatalf("restore %q: %v", n, err)
 			}
-		} else if cur != nil {
+		} else if exists {
 			if err := state.DeleteUserProfile(n); err != nil {
 				e.t.Fatalf("restore(delete) %q: %v", n, err)
 			}
@@ -546,7 +631,11 @@ func (e *c08Env) doReq(f []string) string {
 	if len(changed) > 0 {
 		chg = strings.Join(changed, ",")
 	}
-	return fmt.Sprintf("st=%s chg=%s read=%s list=%s cert=%s", st, chg, read, list, cert)
+	cp := "-"
+	if len(copies) > 0 {
+		cp = strings.Join(copies, ",")
+	}
+	return fmt.Sprintf("st=%s chg=%s read=%s list=%s cert=%s copy=%s", st, chg, read, list, cert, cp)
 }
 
 // doCseq drives the real IsAdminUser / admincache with an injected clock.
